@@ -52,6 +52,15 @@ func c20Root() J {
 		"arrMapA":     J{"type": "array", "items": ref("arrMapB")},
 		"arrMapB":     J{"type": "object", "additionalProperties": ref("arrMapA")},
 		"aliasSelf":   ref("arrSelf"),
+		// recursion with an inline container level between the container and the reference back to it
+		"matrix":      J{"type": "array", "items": J{"type": "array", "items": ref("matrix")}},
+		"tree":        J{"type": "array", "items": J{"type": "object", "additionalProperties": ref("tree")}},
+		"forest":      J{"type": "object", "additionalProperties": J{"type": "array", "items": ref("forest")}},
+		"mapMap":      J{"type": "object", "additionalProperties": J{"type": "object", "additionalProperties": ref("mapMap")}},
+		"tupleSelf":   J{"type": "array", "items": []any{J{"type": "string"}, ref("tupleSelf")}},
+		"tupleOne":    J{"type": "array", "items": []any{J{"type": "string"}}},
+		"extraSelf":   J{"type": "array", "items": []any{J{"type": "string"}}, "additionalItems": ref("extraSelf")},
+		"allOfSelf":   J{"allOf": []any{ref("obj"), J{"type": "object", "properties": J{"again": ref("allOfSelf")}}}},
 		"arrOfNode":   J{"type": "array", "items": ref("node")},
 	}
 }
